@@ -133,11 +133,13 @@ def gen_driver(facts, cfg, include_source=True):
     w = out.append
     w(f'#include "{facts.base}{cfg.get("suffix", "Shell")}.{"cc" if include_source else "hh"}"')
     w('#include "verif_probe.hh"')
-    w('#include <type_traits>\n#include <memory>\n#include <set>\n#include <deque>\n#include <sstream>')
+    w('#include <type_traits>\n#include <memory>\n#include <set>\n#include <deque>\n#include <sstream>\n#include <algorithm>')
     w(f'using Shell = {shell_t}; using Comp = {comp_t};')
     w('static verif::Hits H;')
     # client identifiers related by prefix and by letter case
     w('static const std::vector<std::string> CLIENTS = {"A", "AB", "a", "B"};')
+    w('// registration order of the clients (a permutation of the indices into CLIENTS); identity unless a check varies it')
+    w('static std::vector<int> g_order = {0, 1, 2, 3};')
     # ---- environment
     w('struct Env {')
     w('  dzn::locator user_loc; dzn::pump user_pump; dzn::runtime user_rt; verif::Service svc;')
@@ -181,13 +183,13 @@ def gen_driver(facts, cfg, include_source=True):
     w('  int idx = 0; (void)idx; (void)nclients;')
     for pc, ev in events:
         if pc.mc and ev.direction == 'out':
-            w('  for (int ci = 0; ci < nclients; ++ci) { const std::string client_ = CLIENTS[ci];')
+            w('  for (int ci = 0; ci < nclients; ++ci) { const std::string client_ = CLIENTS[g_order[ci]];')
             w(f'    if (skip != idx) {pc.record_side(ev)} = ' +
               recorder(pc.tag(ev) + '@', ev, ', client_').replace(f'H.hit("{pc.tag(ev)}@")', f'H.hit("{pc.tag(ev)}@" + client_)') + ';')
             w('    ++idx; }')
         elif pc.mc:
             w(f'  if (skip != idx) {pc.record_side(ev)} = {recorder(pc.tag(ev), ev)}; ++idx;')
-            w('  for (int ci = 0; ci < nclients; ++ci) { (void)sh_.ProvidesMultiClient' + pc.p.cap + '(CLIENTS[ci]); }')
+            w('  for (int ci = 0; ci < nclients; ++ci) { (void)sh_.ProvidesMultiClient' + pc.p.cap + '(CLIENTS[g_order[ci]]); }')
         else:
             w(f'  if (skip != idx) {pc.record_side(ev)} = {recorder(pc.tag(ev), ev)}; ++idx;')
     if mcport and not any(pc.mc for pc, _ in events):
@@ -203,7 +205,7 @@ def gen_driver(facts, cfg, include_source=True):
     w('static std::string binding_name(int k, int nclients) { int idx = 0; (void)nclients;')
     for pc, ev in events:
         if pc.mc and ev.direction == 'out':
-            w(f'  for (int ci = 0; ci < nclients; ++ci) {{ if (k == idx) return "{pc.tag(ev)}@" + CLIENTS[ci]; ++idx; }}')
+            w(f'  for (int ci = 0; ci < nclients; ++ci) {{ if (k == idx) return "{pc.tag(ev)}@" + CLIENTS[g_order[ci]]; ++idx; }}')
         else:
             w(f'  if (k == idx) return "{pc.tag(ev)}"; ++idx;')
     w('  return "?"; }')
@@ -349,6 +351,12 @@ def gen_driver(facts, cfg, include_source=True):
     if mcport:
         w('      bool late = throws([&]{ (void)fx.sh->ProvidesMultiClient' + mcport.p.cap + '("LATE"); }, what);')
         w('      verif::emit("C10", "no-registration-after-final-construct", "clients=" + std::to_string(ncl), late, what);')
+        w('      // ... however often it is tried, with identifiers sorting before / between / after the registered ones,')
+        w('      // and the refused attempts must not leave a client behind')
+        w('      { bool all_refused = true; std::string tried;')
+        w('        for (const char* id_ : {"LATE", "0", "zz", "LATE", "AA", "0"}) { std::string w2; bool t_ = throws([&]{ (void)fx.sh->ProvidesMultiClient' + mcport.p.cap + '(id_); }, w2); if (!t_) { all_refused = false; tried += std::string(id_) + " accepted; "; } }')
+        w(f'        const Shell& csh_ = *fx.sh; auto ids_ = csh_.Get{mcport.p.cap}ClientIdentifiers(); std::string j_; for (auto& x_ : ids_) j_ += x_ + ",";')
+        w('        verif::emit("C10", "refused-registrations-leave-no-client", "clients=" + std::to_string(ncl), all_refused && (int)ids_.size() == ncl, tried + "identifiers=" + j_); }')
         w('      if (ncl > 0) { bool known = throws([&]{ (void)fx.sh->ProvidesMultiClient' + mcport.p.cap + '(CLIENTS[0]); }, what);')
         w('        verif::emit("C10", "registered-client-still-accessible", "clients=" + std::to_string(ncl), !known, what); }')
     w('    }')
@@ -463,6 +471,24 @@ def gen_c04(facts, cfg, mcport, events):
     w('          if (!oc.ok) { ++bfail; if (bfirst.empty()) { bfirst = "["; for (int o : n) bfirst += opname(o) + " "; bfirst += "] " + oc.detail; } }')
     w('          if (seen.insert(oc.state).second) frontier.push_back(n); } }')
     w('      verif::emit("C04", "histories-bfs", "clients=" + std::to_string(ncl), bfail == 0, "explored=" + std::to_string(explored) + " states=" + std::to_string(seen.size()) + " maxdepth=" + std::to_string(maxd) + " failures=" + std::to_string(bfail) + " " + bfirst);')
+    w('    }')
+    w('    // (3) every other ORDER in which the same clients can be registered: all histories to depth 2')
+    w('    for (int ncl = 2; ncl <= max_clients; ++ncl) {')
+    w('      std::vector<int> alphabet;')
+    w('      for (int c = 0; c < ncl; ++c) { for (int r = 0; r < NF; ++r) alphabet.push_back(0 * 16 + c * 4 + r); alphabet.push_back(1 * 16 + c * 4);')
+    w(f'        for (int k = 0; k < {len(others)}; ++k) alphabet.push_back((2 + k) * 16 + c * 4); }}')
+    w('      std::vector<int> perm; for (int c = 0; c < ncl; ++c) perm.push_back(c);')
+    w('      long histories = 0, failures = 0, orders = 0; std::string first_fail;')
+    w('      while (std::next_permutation(perm.begin(), perm.end())) { ++orders;')
+    w('        for (int c = 0; c < ncl; ++c) g_order[c] = perm[c];')
+    w('        std::vector<std::vector<int>> level{{}};')
+    w('        for (int d = 0; d <= 2; ++d) { std::vector<std::vector<int>> next;')
+    w('          for (auto& h : level) { Outcome oc = run(h, ncl); ++histories;')
+    w('            if (!oc.ok) { ++failures; if (first_fail.empty()) { first_fail = "registered in the order"; for (int c = 0; c < ncl; ++c) first_fail += " " + CLIENTS[perm[c]]; first_fail += ": ["; for (int op : h) first_fail += opname(op) + " "; first_fail += "] " + oc.detail; } }')
+    w('            if (d < 2) for (int op : alphabet) { auto n = h; n.push_back(op); next.push_back(n); } }')
+    w('          level.swap(next); } }')
+    w('      g_order = {0, 1, 2, 3};')
+    w('      verif::emit("C04", "histories-registration-orders", "clients=" + std::to_string(ncl), failures == 0, "orders=" + std::to_string(orders) + " histories=" + std::to_string(histories) + " failures=" + std::to_string(failures) + " " + first_fail);')
     w('    }')
     # all out-events routed identically to the holder
     w('    { Fix fx; Shell& sh_ = *fx.sh; Comp& comp_ = *fx.comp; dzn::pump& pump_ = *fx.pump; bind_all(sh_, comp_, pump_, -1, 2); sh_.FinalConstruct(&parent);')
